@@ -117,7 +117,123 @@ func c05InterpJSON(c c05Case) (v kit.Verdict) {
 	o.walkStruct(c.S, &c.D, res, "")
 	o.class("ep:" + c.EP)
 	v.Fail, v.Known = c05Judge(o, out, "Unmarshal("+c.EP+")", func() string { return c05Describe(&c) })
+	if v.Fail == "" && res.IsValid() {
+		// Independence of results: the caller may modify what it got; a later
+		// unmarshal of the same document must not see that (defaults, memoised
+		// tag data and the input are not to be aliased by the result).
+		snapshot := c05DeepCopy(res)
+		if c05Scribble(res) {
+			o.class("repeat:scribbled-shared-capable-value")
+		}
+		t2, _ := c05Target(&c)
+		out2 := c05Run(c.EP, &c.D, t2.Interface())
+		switch {
+		case out2.Panic != nil:
+			v.Fail = fmt.Sprintf("P0 second Unmarshal(%s) of the same document panicked: %v | %s", c.EP, out2.Panic, c05Describe(&c))
+		case out2.Err != nil:
+			v.Fail = fmt.Sprintf("P1 second Unmarshal(%s) of the same document failed after the caller modified the first result: %v | %s", c.EP, out2.Err, c05Describe(&c))
+		case !reflect.DeepEqual(snapshot.Interface(), t2.Elem().Interface()):
+			v.Fail = fmt.Sprintf("P1 second Unmarshal(%s) of the same document gives %s, the first gave %s (the caller modified the first result in between) | %s",
+				c.EP, c05Sprint(t2.Elem()), c05Sprint(snapshot), c05Describe(&c))
+		}
+	}
 	return c05Finish(v, o, c05Depth(c.S))
+}
+
+// c05DeepCopy copies a value built from the generated kinds.
+func c05DeepCopy(v reflect.Value) reflect.Value {
+	out := reflect.New(v.Type()).Elem()
+	switch v.Kind() {
+	case reflect.Ptr:
+		if !v.IsNil() {
+			p := reflect.New(v.Type().Elem())
+			p.Elem().Set(c05DeepCopy(v.Elem()))
+			out.Set(p)
+		}
+	case reflect.Struct:
+		for i := 0; i < v.NumField(); i++ {
+			out.Field(i).Set(c05DeepCopy(v.Field(i)))
+		}
+	case reflect.Slice:
+		if !v.IsNil() {
+			s := reflect.MakeSlice(v.Type(), v.Len(), v.Len())
+			for i := 0; i < v.Len(); i++ {
+				s.Index(i).Set(c05DeepCopy(v.Index(i)))
+			}
+			out.Set(s)
+		}
+	case reflect.Map:
+		if !v.IsNil() {
+			m := reflect.MakeMapWithSize(v.Type(), v.Len())
+			it := v.MapRange()
+			for it.Next() {
+				m.SetMapIndex(it.Key(), c05DeepCopy(it.Value()))
+			}
+			out.Set(m)
+		}
+	default:
+		out.Set(v)
+	}
+	return out
+}
+
+// c05Scribble overwrites, in place, everything reachable through slices, maps
+// and pointers of a result (what could be shared with library state); reports
+// whether there was anything of that sort.
+func c05Scribble(v reflect.Value) (touched bool) {
+	switch v.Kind() {
+	case reflect.Ptr:
+		if !v.IsNil() {
+			c05ScribbleScalar(v.Elem())
+			c05Scribble(v.Elem())
+			return true
+		}
+	case reflect.Struct:
+		for i := 0; i < v.NumField(); i++ {
+			if c05Scribble(v.Field(i)) {
+				touched = true
+			}
+		}
+	case reflect.Slice:
+		for i := 0; i < v.Len(); i++ {
+			c05Scribble(v.Index(i))
+			c05ScribbleScalar(v.Index(i))
+			touched = true
+		}
+	case reflect.Map:
+		if v.IsNil() {
+			return false
+		}
+		for _, k := range v.MapKeys() {
+			e := reflect.New(v.Type().Elem()).Elem()
+			e.Set(v.MapIndex(k))
+			c05Scribble(e)
+			c05ScribbleScalar(e)
+			v.SetMapIndex(k, e)
+			touched = true
+		}
+		v.SetMapIndex(reflect.ValueOf("scribbled-extra-key"), reflect.Zero(v.Type().Elem()))
+		return true
+	}
+	return touched
+}
+
+func c05ScribbleScalar(v reflect.Value) {
+	if !v.CanSet() {
+		return
+	}
+	switch v.Kind() {
+	case reflect.Bool:
+		v.SetBool(!v.Bool())
+	case reflect.String:
+		v.SetString(v.String() + "#scribbled")
+	case reflect.Int, reflect.Int8, reflect.Int16, reflect.Int32, reflect.Int64:
+		v.SetInt(v.Int() ^ 0x55)
+	case reflect.Uint, reflect.Uint8, reflect.Uint16, reflect.Uint32, reflect.Uint64:
+		v.SetUint(v.Uint() ^ 0x55)
+	case reflect.Float32, reflect.Float64:
+		v.SetFloat(v.Float() + 1)
+	}
 }
 
 func TestVerif_C05_json(t *testing.T) {
@@ -183,8 +299,8 @@ func c05GenYAMLCase(rt *rapid.T) c05Case {
 	cfg := &c05GenCfg{tag: "json", keyStyles: c05AllStyles, maxDepth: 3}
 	var c c05Case
 	c.S = c05GenFields(rt, cfg, 1, 6, "")
-	mode := c05W(rt, "docmode", []string{"mixed", "plain", "hostile"}, []int{45, 45, 10})
-	g := &c05DocGen{rt: rt, plain: mode == "plain", hostile: 6}
+	mode := c05W(rt, "docmode", []string{"mixed", "plain", "hostile", "focus"}, []int{20, 40, 10, 30})
+	g := &c05DocGen{rt: rt, plain: mode == "plain", hostile: 6, focus: mode == "focus"}
 	if mode == "hostile" {
 		g.hostile = 30
 	}
@@ -275,8 +391,8 @@ func c05GenConfCase(rt *rapid.T) c05ConfCase {
 	cfg := &c05GenCfg{tag: "json", keyStyles: []string{"", "camel", "camel"}, conf: true, maxDepth: 3}
 	var c c05ConfCase
 	c.S = c05GenFields(rt, cfg, 1, 6, "")
-	mode := c05W(rt, "docmode", []string{"mixed", "plain"}, []int{40, 60})
-	g := &c05DocGen{rt: rt, plain: mode == "plain", hostile: 5}
+	mode := c05W(rt, "docmode", []string{"mixed", "plain", "focus"}, []int{15, 50, 35})
+	g := &c05DocGen{rt: rt, plain: mode == "plain", hostile: 5, focus: mode == "focus"}
 	c.D = g.object(c.S, 1)
 	c.D2 = c05Respell(rt, c.S, c.D)
 	c.Y = rapid.IntRange(0, 1).Draw(rt, "yamlstyle")
